@@ -658,3 +658,246 @@ pub fn async_protocol_storm(rounds: u64, seed: u64) -> LiveResult {
     std::mem::forget(rt);
     LiveResult { scenario: "async_protocol_storm", rounds, violations, detail }
 }
+
+// ---- more scenarios for races the stepped harnesses cannot schedule ---------------------------------
+
+fn build_async_ttl(max_cost: i64, buf: usize, buf_items: usize, cleanup_ms: u64, cb: RecCallback, metrics: bool) -> LACache {
+    AsyncCacheBuilder::<u64, u64>::new(4096, max_cost)
+        .set_key_builder(SplitKeyBuilder)
+        .set_coster(SlowCoster { micros: 0 })
+        .set_update_validator(TableValidator(0))
+        .set_callback(cb)
+        .set_hasher(SlowWorkerHasher { micros: 0 })
+        .set_buffer_size(buf)
+        .set_buffer_items(buf_items)
+        .set_metrics(metrics)
+        .set_ignore_internal_cost(true)
+        .set_cleanup_duration(Duration::from_millis(cleanup_ms))
+        .finalize(tokio::spawn)
+        .expect("async cache")
+}
+
+/// C11: inserts issued back to back (no quiescence), then `clear()`: once `clear()` and a following
+/// `wait()` have returned nothing inserted before the clear is retrievable and `len()` is 0.
+pub fn clear_burst(rounds: u64, asynchronous: bool) -> LiveResult {
+    mark_client();
+    let name: &'static str = if asynchronous { "async_clear_burst" } else { "clear_burst" };
+    let mut violations = 0u64;
+    let mut detail = String::new();
+    if asynchronous {
+        // (current-thread runtime: the burst really is buffered when the clear request arrives)
+        for r in 0..rounds {
+            let rt = tokio::runtime::Builder::new_current_thread().build().expect("tokio");
+            let bad = rt.block_on(async move {
+                let c = build_async(1_000_000, 256, 0, tokio::spawn);
+                let n = 16 + (r % 5) * 16;
+                for k in 0..n {
+                    let _ = c.insert_with_ttl(mk_key(k, 0), k, 1, if k % 3 == 0 { Duration::from_secs(60) } else { Duration::ZERO }).await;
+                }
+                let cleared = c.clear().await.is_ok();
+                let waited = c.wait().await.is_ok();
+                let len = c.len();
+                let mut seen = 0;
+                for k in 0..n {
+                    if c.get(&mk_key(k, 0)).await.is_some() {
+                        seen += 1;
+                    }
+                }
+                let _ = c.close().await;
+                if cleared && waited && (len != 0 || seen != 0) {
+                    Some(format!("AsyncCache round {}: {} inserts back to back, clear() Ok, wait() Ok: len() = {}, {} keys still retrievable", r, n, len, seen))
+                } else {
+                    None
+                }
+            });
+            if let Some(b) = bad {
+                violations += 1;
+                if detail.is_empty() {
+                    detail = b;
+                }
+            }
+        }
+    } else {
+        for r in 0..rounds {
+            let c = build(1_000_000, 256, 40, 0);
+            let n = 16 + (r % 5) * 16;
+            for k in 0..n {
+                let _ = c.insert_with_ttl(mk_key(k, 0), k, 1, if k % 3 == 0 { Duration::from_secs(60) } else { Duration::ZERO });
+            }
+            let cleared = c.clear().is_ok();
+            let waited = c.wait().is_ok();
+            let len = c.len();
+            let seen = (0..n).filter(|k| c.get(&mk_key(*k, 0)).is_some()).count();
+            let _ = c.close();
+            if cleared && waited && (len != 0 || seen != 0) {
+                violations += 1;
+                if detail.is_empty() {
+                    detail = format!("Cache round {}: {} inserts back to back, clear() Ok, wait() Ok: len() = {}, {} keys still retrievable", r, n, len, seen);
+                }
+            }
+        }
+    }
+    LiveResult { scenario: name, rounds, violations, detail }
+}
+
+/// C15: every recorded lookup is accounted exactly once. Several tasks look keys up concurrently;
+/// afterwards gets_kept + gets_dropped + (lookups still pending in the stripes) = lookups made.
+pub fn async_ring_accounting(rounds: u64) -> LiveResult {
+    mark_client();
+    let rt = tokio::runtime::Builder::new_multi_thread().worker_threads(4).build().expect("tokio");
+    let mut violations = 0u64;
+    let mut detail = String::new();
+    for r in 0..rounds {
+        let items = [1usize, 4, 8, 64][(r % 4) as usize];
+        let bad = rt.block_on(async move {
+            let c = build_async_ttl(1_000_000, 64, items, 3_600_000, RecCallback::default(), true);
+            let per = 3000u64;
+            let tasks = 6u64;
+            let mut hs = Vec::new();
+            for t in 0..tasks {
+                let c = c.clone();
+                hs.push(tokio::spawn(async move {
+                    for i in 0..per {
+                        let _ = c.get(&mk_key((t * 7 + i) % 50, 0)).await;
+                    }
+                }));
+            }
+            for h in hs {
+                let _ = h.await;
+            }
+            let _ = c.wait().await;
+            for _ in 0..50 {
+                tokio::task::yield_now().await;
+            }
+            std::thread::sleep(Duration::from_millis(5));
+            let snap = stretto::verif::async_cache_snapshot(&c, |v| *v);
+            let m = snap.metrics.unwrap_or([0; 11]);
+            let total = m[9] + m[10] + snap.ring.len() as u64;
+            let _ = c.close().await;
+            if total != per * tasks {
+                Some(format!(
+                    "AsyncCache round {} (buffer_items {}): {} lookups were made, gets_kept {} + gets_dropped {} + pending {} = {}",
+                    r, items, per * tasks, m[10], m[9], snap.ring.len(), total
+                ))
+            } else {
+                None
+            }
+        });
+        if let Some(b) = bad {
+            violations += 1;
+            if detail.is_empty() {
+                detail = b;
+            }
+        }
+    }
+    LiveResult { scenario: "async_ring_accounting", rounds, violations, detail }
+}
+
+/// C03 / C05: the periodic sweep racing TTL refreshes, with real time. Many keys share a deadline;
+/// while their bucket is being swept some of them are re-inserted with a long TTL. Afterwards every
+/// refreshed key is still retrievable (the sweep never removes an entry that has not expired) and
+/// every other key has been reclaimed within the bound (nothing leaks).
+pub fn async_sweep_race(rounds: u64) -> LiveResult {
+    mark_client();
+    let rt = tokio::runtime::Builder::new_multi_thread().worker_threads(4).enable_time().build().expect("tokio");
+    let mut violations = 0u64;
+    let mut detail = String::new();
+    for r in 0..rounds {
+        let bad = rt.block_on(async move {
+            let cb = RecCallback::default();
+            let c = build_async_ttl(10_000_000, 65536, 64, 20, cb.clone(), false);
+            let n = 40_000u64;
+            // all keys expire inside the same second; the sweep reaches their bucket one second later
+            let now_ns = std::time::SystemTime::now().duration_since(std::time::UNIX_EPOCH).unwrap().subsec_nanos() as u64;
+            // start shortly after a second boundary so that the whole batch shares one bucket
+            if now_ns > 300_000_000 {
+                std::thread::sleep(Duration::from_nanos(1_000_000_000 - now_ns + 20_000_000));
+            }
+            for k in 0..n {
+                let _ = c.insert_with_ttl(mk_key(k, 0), k, 1, Duration::from_millis(300)).await;
+            }
+            let _ = c.wait().await;
+            // the bucket becomes due at the second boundary after the deadline's second + 1
+            let refresher = {
+                let c = c.clone();
+                tokio::spawn(async move {
+                    let t0 = Instant::now();
+                    let mut refreshed = Vec::new();
+                    let mut k = 0u64;
+                    while t0.elapsed() < Duration::from_millis(2300) {
+                        if t0.elapsed() > Duration::from_millis(600) {
+                            // about twenty refreshes per millisecond: the sweep of 40 000 keys overlaps hundreds
+                            for _ in 0..20 {
+                                let key = (k * 37) % n;
+                                if c.insert_with_ttl(mk_key(key, 0), key + 1_000_000, 1, Duration::from_secs(3600)).await {
+                                    refreshed.push(key);
+                                }
+                                k += 1;
+                            }
+                        }
+                        tokio::time::sleep(Duration::from_millis(1)).await;
+                    }
+                    refreshed
+                })
+            };
+            let refreshed = refresher.await.unwrap_or_default();
+            let _ = c.wait().await;
+            tokio::time::sleep(Duration::from_millis(1200)).await;
+            let _ = c.wait().await;
+            let mut uniq = refreshed.clone();
+            uniq.sort();
+            uniq.dedup();
+            let mut missing = 0;
+            for key in &uniq {
+                if c.get(&mk_key(*key, 0)).await.is_none() {
+                    missing += 1;
+                }
+            }
+            let len = c.len();
+            let _ = c.close().await;
+            if missing > 0 {
+                Some(format!("AsyncCache round {}: {} of {} keys re-inserted with a one-hour TTL while their old bucket was being swept are gone", r, missing, uniq.len()))
+            } else if len != uniq.len() {
+                Some(format!("AsyncCache round {}: {} entries are resident 2 s after every non-refreshed key expired, {} were refreshed: expired entries were not reclaimed", r, len, uniq.len()))
+            } else {
+                None
+            }
+        });
+        if let Some(b) = bad {
+            violations += 1;
+            if detail.is_empty() {
+                detail = b;
+            }
+            break;
+        }
+    }
+    LiveResult { scenario: "async_sweep_race", rounds, violations, detail }
+}
+
+/// C05: the sweep is not starved by traffic. One key expires while other keys are inserted every few
+/// milliseconds; within bucket width + cleanup interval (+ slack) it has been handed to `on_evict`.
+pub fn async_sweep_under_traffic() -> LiveResult {
+    mark_client();
+    let rt = tokio::runtime::Builder::new_multi_thread().worker_threads(2).enable_time().build().expect("tokio");
+    let (violations, detail) = rt.block_on(async move {
+        let cb = RecCallback::default();
+        let c = build_async_ttl(1_000_000, 1024, 64, 500, cb.clone(), false);
+        let _ = c.insert_with_ttl(mk_key(7, 0), 700, 1, Duration::from_millis(400)).await;
+        let t0 = Instant::now();
+        let mut i = 0u64;
+        // deadline + bucket width (1 s) + one interval (0.5 s) + slack
+        while t0.elapsed() < Duration::from_millis(3600) {
+            let _ = c.insert(mk_key(100 + (i % 200), 0), i, 1).await;
+            i += 1;
+            tokio::time::sleep(Duration::from_millis(10)).await;
+        }
+        let evicted = cb.0.lock().unwrap().iter().any(|e| matches!(e, crate::cache::CbEv::Evict(_, _, 700, _)));
+        let _ = c.close().await;
+        if evicted {
+            (0, String::new())
+        } else {
+            (1, "AsyncCache: an entry whose TTL (0.4 s) ran out was not reclaimed within 3.6 s while other keys were inserted every 10 ms (cleanup interval 0.5 s)".to_string())
+        }
+    });
+    LiveResult { scenario: "async_sweep_under_traffic", rounds: 1, violations, detail }
+}
